@@ -48,6 +48,8 @@ pub fn c12(data: &[u8]) -> Option<c12::Case> {
         graphemes,
         swap: flags & 2 != 0,
         ws_only: flags & 4 != 0,
+        rep_a: 0,
+        rep_b: 0,
     })
 }
 
@@ -332,7 +334,7 @@ fn fuzz_special(u: &mut Unstructured) -> Option<SpecialCfg> {
         let t = tokens[u.int_in_range(0..=tokens.len() - 1).ok()?].clone();
         tokens.push(t);
     }
-    let mut one = |u: &mut Unstructured| -> Option<String> { Some(tokens[u.int_in_range(0..=tokens.len() - 1).ok()?].clone()) };
+    let one = |u: &mut Unstructured| -> Option<String> { Some(tokens[u.int_in_range(0..=tokens.len() - 1).ok()?].clone()) };
     let pad = one(u)?;
     let np = u.int_in_range(0..=3usize).ok()?;
     let prefix = (0..np).map(|_| one(u)).collect::<Option<Vec<_>>>()?;
